@@ -678,6 +678,13 @@ def run(ctx):
     # stage T: recorded random configurations / call sequences validated by TLC (Trace_BlockDiag.tla)
     from . import c09_trace
     c09_trace.run(ctx)
+    # only the first few violations are written out as replay files: put one of every kind first
+    seen, first, rest = set(), [], []
+    for v in ctx.violations:
+        sig = (v["case"].get("kind"), v["what"].split("]")[0] if v["what"].startswith("[") else v["what"].split(":")[1].strip()[:30] if ":" in v["what"] else "")
+        (rest if sig in seen else first).append(v)
+        seen.add(sig)
+    ctx.violations[:] = first + rest
 
 
 def replay(ctx, data):
